@@ -309,6 +309,30 @@ pub fn families(tier: Tier, variant: &str) -> Vec<Family> {
             check_all(ctx, &d, &p2);
         }));
     }
+    // (c2) every rejected text of the type-directed C04 spaces, per target type
+    macro_rules! directed {
+        ($t:ty) => {{
+            let texts = crate::props::c04::directed_texts::<$t>(!q);
+            v.push(Family::of_vec(&format!("typed-directed/{}", <$t as crate::types::Fam>::NAME), texts, |s, ctx| {
+                for slice in [false, true] {
+                    let r = guard(|| if slice { sonic_rs::from_slice::<$t>(s.as_bytes()).map(|_| ()) } else { sonic_rs::from_str::<$t>(s).map(|_| ()) });
+                    ctx.state();
+                    ctx.call();
+                    match r {
+                        Err(p) => ctx.violation("panic/typed-directed", json!({"type": <$t as crate::types::Fam>::NAME, "text": s, "panic": p})),
+                        Ok(Ok(())) => ctx.outcome("ok"),
+                        Ok(Err(e)) => check_err(ctx, &format!("from_str<{}>", <$t as crate::types::Fam>::NAME), s.as_bytes(), &e, false),
+                    }
+                }
+                // the same text on a second line: positions must follow
+                let shifted = format!("\n \n{}", s);
+                if let Ok(Err(e)) = guard(|| sonic_rs::from_str::<$t>(&shifted).map(|_| ())) {
+                    check_err(ctx, &format!("from_str<{}>(line 3)", <$t as crate::types::Fam>::NAME), shifted.as_bytes(), &e, false);
+                }
+            }));
+        }};
+    }
+    crate::for_each_fam!(directed);
     // (d) streams of several documents with separators / junk
     {
         let items: Vec<&'static [u8]> = vec![b"1", b"\"a\"", b"[true]", b"{\"a\":1}", b" ", b"\n", b",", b"x", b"]", b"1e999", b"\"\\ud800\"", b"\xff"];
